@@ -652,3 +652,699 @@ Proof.
   unfold dv_detect. intros H Hr.
   eapply dfs_all_complete_acyclic; [exact fnode_eqb_spec | exact (dv_roots_cover rs) | exact H | exact Hr].
 Qed.
+
+(* ================================================================== no assert site is reached *)
+
+Lemma lmax_assert a b : lmax a b = RAssert <-> a = RAssert \/ b = RAssert.
+Proof. destruct a, b; cbn; split; intro H; try discriminate; auto; destruct H; discriminate. Qed.
+
+Lemma ofb_assert b : ofb b <> RAssert.
+Proof. destruct b; discriminate. Qed.
+
+Lemma is_input_named_cases rs n :
+  is_input_named rs n = true ->
+  (exists s, lookup rs n = Some (DScalar s)) \/ (exists vs, lookup rs n = Some (DEnum vs))
+  \/ (exists o fs, lookup rs n = Some (DInput o fs)).
+Proof.
+  unfold is_input_named. destruct (lookup rs n) as [d|]; [|discriminate].
+  destruct d; try discriminate; intros _; eauto.
+Qed.
+
+(* validate_input_literal's assert_leaf_type is never reached from a declared input type *)
+Lemma lit_check_no_assert rs v : forall t, is_input_tref rs t = true -> lit_check rs v t <> RAssert.
+Proof.
+  induction v as [ | b m | | | b | e | vs IHF | kvs IHF] using lit_ind'; intro t;
+    induction t as [n|t IHt|t IHt]; intro Hin; cbn [is_input_tref] in Hin;
+    try (cbn; discriminate); try (cbn; apply IHt; exact Hin);
+    try (cbn; destruct (is_input_named_cases rs n Hin) as [[s H]|[[ws H]|[o [fs H]]]]; rewrite H;
+         try discriminate; apply ofb_assert).
+  - (* list literal at a list type *)
+    cbn. clear IHt. induction vs as [|x vs IHvs]; [discriminate|].
+    inversion IHF as [|? ? Hx Hvs]; subst. intro H. apply lmax_assert in H. destruct H as [H|H].
+    + exact (Hx t Hin H).
+    + exact (IHvs Hvs H).
+  - (* object literal at a named type *)
+    cbn. destruct (is_input_named_cases rs n Hin) as [[s H]|[[ws H]|[o [fs H]]]]; rewrite H;
+      try discriminate; try apply ofb_assert.
+    intro Hm. apply lmax_assert in Hm. destruct Hm as [Hm|Hm].
+    + clear H Hin. induction kvs as [|[k x] kvs IHk]; [discriminate|].
+      inversion IHF as [|? ? Hx Hvs]; subst. apply lmax_assert in Hm. destruct Hm as [Hm|Hm].
+      * destruct (find_inval k fs) as [f|]; [|discriminate].
+        destruct (is_input_tref rs (iv_type f)) eqn:E; [|discriminate].
+        exact (Hx (iv_type f) E Hm).
+      * exact (IHk Hvs Hm).
+    + apply lmax_assert in Hm. destruct Hm as [Hm|Hm]; exact (ofb_assert _ Hm).
+Qed.
+
+Definition nokind (k : rule_kind) (l : list rule_kind) : Prop := ~ In k l.
+
+Lemma nokind_app k a b : nokind k a -> nokind k b -> nokind k (a ++ b).
+Proof. unfold nokind. intros Ha Hb H. apply in_app_or in H. tauto. Qed.
+
+Lemma nokind_flat_map {B} k (f : B -> list rule_kind) l :
+  (forall x, nokind k (f x)) -> nokind k (flat_map f l).
+Proof. unfold nokind. intros Hf H. apply in_flat_map in H. destruct H as [x [_ H]]. exact (Hf x H). Qed.
+
+Lemma nokind_chk k b k' : k <> k' -> nokind k (chk b k').
+Proof. unfold nokind, chk. intros Hk H. destruct b; [destruct H|]. destruct H as [H|[]]. congruence. Qed.
+
+Lemma nokind_nil k : nokind k [].
+Proof. intros []. Qed.
+
+Lemma nokind_cons k k' l : k <> k' -> nokind k l -> nokind k (k' :: l).
+Proof. unfold nokind. intros Hk Hl [H|H]; [congruence | tauto]. Qed.
+
+Ltac nk :=
+  repeat first
+    [ apply nokind_nil
+    | apply nokind_app
+    | apply nokind_chk; discriminate
+    | apply nokind_cons; [discriminate|]
+    | apply nokind_flat_map; intro ].
+
+Lemma default_check_no_crash rs t d : nokind KCrash (default_check rs t d).
+Proof.
+  unfold default_check. destruct d as [| |v]; nk.
+  destruct (is_input_tref rs t) eqn:E; [|nk].
+  pose proof (lit_check_no_assert rs v t E). destruct (lit_check rs v t); nk. congruence.
+Qed.
+
+Lemma default_check_no_fuel rs t d : nokind KOutOfFuel (default_check rs t d).
+Proof.
+  unfold default_check. destruct d as [| |v]; nk.
+  destruct (is_input_tref rs t); [|nk]. destruct (lit_check rs v t); nk.
+Qed.
+
+Lemma validate_inval_nokind rs iv k :
+  (k = KCrash \/ k = KOutOfFuel) -> nokind k (validate_inval rs iv).
+Proof.
+  intros [-> | ->]; unfold validate_inval, name_ok; nk;
+    [apply default_check_no_crash | apply default_check_no_fuel].
+Qed.
+
+Lemma validate_ifaces_nokind rs self sf si k : (k = KCrash \/ k = KOutOfFuel) ->
+  forall l seen, nokind k (validate_ifaces rs self sf si seen l).
+Proof.
+  intros Hk l. induction l as [|i l IH]; intro seen; cbn [validate_ifaces]; [apply nokind_nil|].
+  assert (Himpl : nokind k (validate_implements rs sf i)).
+  { unfold validate_implements. apply nokind_flat_map. intro f. unfold implements_field.
+    destruct (find_field (f_name f) sf); destruct Hk as [-> | ->]; nk;
+      try (unfold implements_arg; destruct (find_inval (iv_name x) (f_args f0)); nk);
+      try (unfold extra_arg; nk). }
+  assert (Hanc : nokind k (validate_ancestors rs si i)).
+  { unfold validate_ancestors. destruct Hk as [-> | ->]; nk. }
+  destruct (negb (is_interface rs i)).
+  - destruct Hk as [-> | ->]; (apply nokind_cons; [discriminate | apply IH]).
+  - apply nokind_app; [destruct Hk as [-> | ->]; nk|].
+    destruct (memN i seen).
+    + destruct Hk as [-> | ->]; (apply nokind_cons; [discriminate | apply IH]).
+    + apply nokind_app; [exact Hanc|]. apply nokind_app; [exact Himpl | apply IH].
+Qed.
+
+Lemma validate_members_nokind rs k : (k = KCrash \/ k = KOutOfFuel) ->
+  forall l seen, nokind k (validate_members rs seen l).
+Proof.
+  intros Hk l. induction l as [|m l IH]; intro seen; cbn [validate_members]; [apply nokind_nil|].
+  destruct (is_object rs m); [destruct (memN m seen)|];
+    try apply IH; destruct Hk as [-> | ->]; (apply nokind_cons; [discriminate | apply IH]).
+Qed.
+
+Lemma validate_type_nokind rs nd k : (k = KCrash \/ k = KOutOfFuel) -> nokind k (validate_type rs nd).
+Proof.
+  intro Hk. destruct nd as [n d]. unfold validate_type.
+  apply nokind_app; [unfold name_ok; destruct Hk as [-> | ->]; nk|].
+  destruct d as [s|fs ifs|fs ifs|ms|vs|o fs].
+  - apply nokind_nil.
+  - apply nokind_app; [|apply validate_ifaces_nokind; exact Hk].
+    unfold validate_fields, validate_field, name_ok.
+    apply nokind_app; [destruct Hk as [-> | ->]; nk|]. apply nokind_flat_map. intro f.
+    apply nokind_app; [destruct Hk as [-> | ->]; nk|].
+    apply nokind_app; [destruct Hk as [-> | ->]; nk|]. apply nokind_flat_map. intro a.
+    apply validate_inval_nokind. exact Hk.
+  - apply nokind_app; [|apply validate_ifaces_nokind; exact Hk].
+    unfold validate_fields, validate_field, name_ok.
+    apply nokind_app; [destruct Hk as [-> | ->]; nk|]. apply nokind_flat_map. intro f.
+    apply nokind_app; [destruct Hk as [-> | ->]; nk|].
+    apply nokind_app; [destruct Hk as [-> | ->]; nk|]. apply nokind_flat_map. intro a.
+    apply validate_inval_nokind. exact Hk.
+  - apply nokind_app; [destruct Hk as [-> | ->]; nk | apply validate_members_nokind; exact Hk].
+  - unfold name_ok. destruct Hk as [-> | ->]; nk.
+  - apply nokind_app; [destruct Hk as [-> | ->]; nk|]. apply nokind_flat_map. intro a.
+    unfold validate_input_field. apply nokind_app; [apply validate_inval_nokind; exact Hk|].
+    destruct o; destruct Hk as [-> | ->]; nk.
+Qed.
+
+Lemma cycle_reports_nokind {B} k0 (o : option (dstate B)) k :
+  (exists st, o = Some st) -> k <> k0 -> nokind k (cycle_reports k0 o).
+Proof.
+  intros [st ->] Hk. unfold cycle_reports, nokind. intro H. apply in_map_iff in H.
+  destruct H as [_ [H _]]. congruence.
+Qed.
+
+Theorem validate_never_crashes rs : ~ In KCrash (validate rs) /\ ~ In KOutOfFuel (validate rs).
+Proof.
+  assert (H : forall k, (k = KCrash \/ k = KOutOfFuel) -> nokind k (validate rs)).
+  { intros k Hk. unfold validate.
+    apply nokind_app.
+    { unfold validate_roots, root_check.
+      destruct (s_query rs), (s_mutation rs), (s_subscription rs); destruct Hk as [-> | ->]; nk. }
+    apply nokind_app.
+    { apply nokind_flat_map. intro d. unfold validate_directive, name_ok.
+      apply nokind_app; [destruct Hk as [-> | ->]; nk|].
+      apply nokind_app; [destruct Hk as [-> | ->]; nk|].
+      apply nokind_flat_map. intro a. apply validate_inval_nokind. exact Hk. }
+    apply nokind_app.
+    { apply nokind_flat_map. intro nd. apply validate_type_nokind. exact Hk. }
+    apply nokind_app; apply cycle_reports_nokind;
+      try apply nn_detect_terminates; try apply dv_detect_terminates;
+      destruct Hk as [-> | ->]; discriminate. }
+  split; apply H; auto.
+Qed.
+
+(* ================================================================== validate = [] <-> ValidSchema *)
+
+
+(* declarative covariance: the specification's "valid subtype" relation *)
+Definition PossibleType (rs : raw_schema) (p b : N) : Prop :=
+  (exists ms, lookup rs p = Some (DUnion ms) /\ In b ms)
+  \/ (is_interface rs p = true /\ In p (ifaces_of rs b)).
+
+Inductive Subtype (rs : raw_schema) : tref -> tref -> Prop :=
+| ST_same n : Subtype rs (TNamed n) (TNamed n)
+| ST_possible b p :
+    (is_interface rs b = true \/ is_object rs b = true) -> PossibleType rs p b ->
+    Subtype rs (TNamed b) (TNamed p)
+| ST_nonnull a b : Subtype rs a b -> Subtype rs (TNonNull a) (TNonNull b)
+| ST_nonnull_of_nullable a b : is_nonnull b = false -> Subtype rs a b -> Subtype rs (TNonNull a) b
+| ST_list a b : Subtype rs a b -> Subtype rs (TList a) (TList b).
+
+
+(* declarative "value is valid for type" (input coercion rules of the specification) *)
+Inductive LitValid (rs : raw_schema) : lit -> tref -> Prop :=
+| LV_nonnull v t : v <> LNull -> LitValid rs v t -> LitValid rs v (TNonNull t)
+| LV_null_list t : LitValid rs LNull (TList t)
+| LV_null_named n : LitValid rs LNull (TNamed n)
+| LV_list vs t : Forall (fun x => LitValid rs x t) vs -> LitValid rs (LList vs) (TList t)
+| LV_item v t : v <> LNull -> (forall vs, v <> LList vs) -> LitValid rs v t -> LitValid rs v (TList t)
+| LV_scalar v n s :
+    v <> LNull -> lookup rs n = Some (DScalar s) -> scalar_accepts s v = true ->
+    LitValid rs v (TNamed n)
+| LV_enum e n vals : lookup rs n = Some (DEnum vals) -> In e vals -> LitValid rs (LEnum e) (TNamed n)
+| LV_object kvs n oneof fs :
+    lookup rs n = Some (DInput oneof fs) ->
+    (forall k x, In (k, x) kvs ->
+       exists f, find_inval k fs = Some f /\ is_input_tref rs (iv_type f) = true
+                 /\ LitValid rs x (iv_type f)) ->
+    (forall f, In f fs -> required f = true -> In (iv_name f) (keys kvs)) ->
+    (oneof = true -> exists k x, kvs = [(k, x)] /\ x <> LNull) ->
+    LitValid rs (LObj kvs) (TNamed n).
+
+Definition roots_list (rs : raw_schema) : list N :=
+  opt_list (s_query rs) ++ opt_list (s_mutation rs) ++ opt_list (s_subscription rs).
+
+Definition RootsOK (rs : raw_schema) : Prop :=
+  (exists q, s_query rs = Some q)
+  /\ (forall n, In n (roots_list rs) -> is_object rs n = true)
+  /\ NoDup (roots_list rs).
+
+Definition DefaultOK (rs : raw_schema) (t : tref) (d : dflt) : Prop :=
+  match d with DLit v => LitValid rs v t | _ => True end.
+
+Definition InvalOK (rs : raw_schema) (iv : inval) : Prop :=
+  reserved (iv_name iv) = false
+  /\ is_input_tref rs (iv_type iv) = true
+  /\ ~ (required iv = true /\ iv_dep iv = true)
+  /\ DefaultOK rs (iv_type iv) (iv_default iv).
+
+Definition DirectiveOK (rs : raw_schema) (d : directive) : Prop :=
+  reserved (d_name d) = false /\ d_haslocs d = true /\ Forall (InvalOK rs) (d_args d).
+
+Definition FieldOK (rs : raw_schema) (f : field) : Prop :=
+  reserved (f_name f) = false /\ is_output_tref rs (f_type f) = true /\ Forall (InvalOK rs) (f_args f).
+
+Definition ArgOK (tf : field) (ia : inval) : Prop :=
+  exists ta, find_inval (iv_name ia) (f_args tf) = Some ta /\ iv_type ia = iv_type ta.
+
+Definition ExtraOK (ifld : field) (ta : inval) : Prop :=
+  find_inval (iv_name ta) (f_args ifld) = None -> required ta = false.
+
+Definition FieldImpl (rs : raw_schema) (tfields : list field) (ifld : field) : Prop :=
+  exists tf, find_field (f_name ifld) tfields = Some tf
+    /\ Subtype rs (f_type tf) (f_type ifld)
+    /\ Forall (ArgOK tf) (f_args ifld)
+    /\ Forall (ExtraOK ifld) (f_args tf)
+    /\ (f_dep tf = true -> f_dep ifld = true).
+
+Definition IfaceOK (rs : raw_schema) (self : N) (sfields : list field) (sifaces : list N) (i : N) : Prop :=
+  is_interface rs i = true /\ i <> self /\ incl (ifaces_of rs i) sifaces
+  /\ Forall (FieldImpl rs sfields) (fields_of rs i).
+
+Definition OneOfOK (iv : inval) : Prop := is_nonnull (iv_type iv) = false /\ iv_default iv = DNone.
+
+Definition TypeOK (rs : raw_schema) (nd : N * tdef) : Prop :=
+  reserved (fst nd) = false /\
+  match snd nd with
+  | DScalar _ => True
+  | DObject fs ifs | DInterface fs ifs =>
+      fs <> [] /\ Forall (FieldOK rs) fs /\ NoDup ifs /\ Forall (IfaceOK rs (fst nd) fs ifs) ifs
+  | DUnion ms => ms <> [] /\ NoDup ms /\ Forall (fun m => is_object rs m = true) ms
+  | DEnum vs => vs <> [] /\ Forall (fun v => reserved v = false) vs
+  | DInput oneof fs =>
+      fs <> [] /\ Forall (InvalOK rs) fs /\ (oneof = true -> Forall OneOfOK fs)
+  end.
+
+Record ValidSchema (rs : raw_schema) : Prop := mkValid
+  { vs_roots : RootsOK rs;
+    vs_dirs : Forall (DirectiveOK rs) (s_dirs rs);
+    vs_types : Forall (TypeOK rs) (s_types rs);
+    vs_nn_acyclic : forall n, ~ reach (nn_succ rs) n n;
+    vs_dv_acyclic : forall nd, ~ reach (dv_succ rs) nd nd }.
+
+Lemma chk_nil b k : chk b k = [] <-> b = true.
+Proof. destruct b; cbn; split; intro H; congruence. Qed.
+
+Lemma app_nil_iff {B} (a b : list B) : a ++ b = [] <-> a = [] /\ b = [].
+Proof. split; [apply app_eq_nil | intros [-> ->]; reflexivity]. Qed.
+
+Lemma flat_map_nil {B C} (f : B -> list C) l : flat_map f l = [] <-> Forall (fun x => f x = []) l.
+Proof.
+  induction l as [|x l IH]; cbn; [split; auto|].
+  rewrite app_nil_iff, IH. split; [intros [H1 H2]; constructor; auto | intro H; inversion H; auto].
+Qed.
+
+Lemma Forall_iff {B} (P Q : B -> Prop) l : (forall x, P x <-> Q x) -> Forall P l <-> Forall Q l.
+Proof. intro H. split; apply Forall_impl; intro x; apply H. Qed.
+
+Lemma memN_In x l : memN x l = true <-> In x l.
+Proof.
+  induction l as [|y l IH]; cbn; [split; [discriminate | tauto]|].
+  rewrite orb_true_iff, IH, N.eqb_eq. split; intros [H|H]; auto.
+Qed.
+
+Lemma nodupN_NoDup l : nodupN l = true <-> NoDup l.
+Proof.
+  induction l as [|x l IH]; cbn; [split; [constructor | reflexivity]|].
+  rewrite andb_true_iff, negb_true_iff, IH. split.
+  - intros [H1 H2]. constructor; [|exact H2]. rewrite <- memN_In. congruence.
+  - intro H. inversion H; subst. split; [|assumption].
+    destruct (memN x l) eqn:E; [|reflexivity]. apply memN_In in E. contradiction.
+Qed.
+
+Lemma filter_all {B} (f : B -> bool) l : (forall x, In x l -> f x = true) -> filter f l = l.
+Proof.
+  induction l as [|x l IH]; intro H; cbn; [reflexivity|].
+  rewrite (H x (or_introl eq_refl)). f_equal. apply IH. intros y Hy. apply H. right. exact Hy.
+Qed.
+
+Lemma is_nil_false {B} (l : list B) : negb (is_nil l) = true <-> l <> [].
+Proof. destruct l; cbn; split; intro H; congruence. Qed.
+
+Lemma tref_eqb_eq a : forall b, tref_eqb a b = true <-> a = b.
+Proof.
+  induction a as [n|a IH|a IH]; intros [m|b|b]; cbn; try (split; intro H; discriminate).
+  - rewrite N.eqb_eq. split; intro H; [subst; reflexivity | inversion H; reflexivity].
+  - rewrite IH. split; intro H; [subst; reflexivity | inversion H; reflexivity].
+  - rewrite IH. split; intro H; [subst; reflexivity | inversion H; reflexivity].
+Qed.
+
+(* --- the declarative relations agree with the executable checks *)
+Lemma is_sub_named_possible rs p b :
+  ((is_interface rs p || is_union rs p) && is_sub_named rs p b) = true <-> PossibleType rs p b.
+Proof.
+  unfold PossibleType, is_sub_named, is_interface, is_union.
+  destruct (lookup rs p) as [d|]; [destruct d|]; cbn; rewrite ?memN_In; split;
+    try (intro H; discriminate); try (intros [[ms [H _]]|[H _]]; discriminate).
+  - intro H. right. auto.
+  - intros [[ms [H _]]|[_ H]]; [discriminate | exact H].
+  - intro H. left. eauto.
+  - intros [[ms' [H H']]|[H _]]; [inversion H; subst; exact H' | discriminate].
+Qed.
+
+Lemma subtype_reflect rs : forall sub sup, subtype rs sub sup = true <-> Subtype rs sub sup.
+Proof.
+  induction sub as [b|sb IH|sb IH]; intros sup.
+  - destruct sup as [p|sp|sp]; cbn [subtype].
+    + rewrite orb_true_iff, N.eqb_eq. split.
+      * intros [->|H]; [constructor|].
+        rewrite <- andb_assoc, (andb_comm (is_interface rs b || is_object rs b)), andb_assoc in H.
+        apply andb_true_iff in H. destruct H as [H1 H2]. apply is_sub_named_possible in H1.
+        apply orb_true_iff in H2. apply ST_possible; assumption.
+      * intro H. inversion H; subst; [left; reflexivity|]. right.
+        rewrite <- andb_assoc, (andb_comm (is_interface rs b || is_object rs b)), andb_assoc.
+        apply andb_true_iff. split; [apply is_sub_named_possible; assumption | apply orb_true_iff; assumption].
+    + split; [discriminate | intro H; inversion H].
+    + split; [discriminate | intro H; inversion H].
+  - destruct sup as [p|sp|sp]; cbn [subtype].
+    + split; [discriminate | intro H; inversion H].
+    + rewrite IH. split; [apply ST_list | intro H; inversion H; subst; assumption].
+    + split; [discriminate | intro H; inversion H].
+  - destruct sup as [p|sp|sp]; cbn [subtype].
+    + rewrite IH. split; [apply ST_nonnull_of_nullable; reflexivity | intro H; inversion H; subst; assumption].
+    + rewrite IH. split; [apply ST_nonnull_of_nullable; reflexivity | intro H; inversion H; subst; assumption].
+    + rewrite IH. split; [apply ST_nonnull|]. intro H. inversion H; subst; [assumption | discriminate].
+Qed.
+
+Lemma lmax_valid a b : lmax a b = RValid <-> a = RValid /\ b = RValid.
+Proof. destruct a, b; cbn; split; intro H; try discriminate; auto; destruct H; discriminate. Qed.
+
+Lemma ofb_valid b : ofb b = RValid <-> b = true.
+Proof. destruct b; cbn; split; intro H; congruence. Qed.
+
+Ltac inv H := inversion H; subst; clear H.
+
+Lemma each_list_valid rs t vs :
+  Forall (fun x => lit_check rs x t = RValid <-> LitValid rs x t) vs ->
+  ((fix each (l : list lit) : lres :=
+      match l with [] => RValid | x :: l' => lmax (lit_check rs x t) (each l') end) vs = RValid
+   <-> Forall (fun x => LitValid rs x t) vs).
+Proof.
+  induction vs as [|x vs IH]; intro HF.
+  - split; [constructor | reflexivity].
+  - inv HF. rewrite lmax_valid, H1, (IH H2). split; [intros [A B]; constructor; auto | intro H; inv H; auto].
+Qed.
+
+Lemma oneof_ok_spec fs kvs :
+  (forall k x, In (k, x) kvs -> exists f, find_inval k fs = Some f) ->
+  (oneof_ok fs kvs = true <-> exists k x, kvs = [(k, x)] /\ x <> LNull).
+Proof.
+  intro Hk. unfold oneof_ok.
+  assert (E : filter (fun kv => match find_inval (fst kv) fs with Some _ => true | None => false end) kvs = kvs).
+  { apply filter_all. intros [k x] Hin. cbn. destruct (Hk k x Hin) as [f ->]. reflexivity. }
+  rewrite E. destruct kvs as [|[k x] [|kv kvs]].
+  - split; [discriminate | intros [k [x [H _]]]; discriminate].
+  - rewrite negb_true_iff. split.
+    + intro H. exists k, x. split; [reflexivity|]. intro Hx. subst. discriminate.
+    + intros [k' [x' [H Hx]]]. inv H. destruct x'; try reflexivity. congruence.
+  - split; [discriminate | intros [k' [x' [H _]]]; discriminate].
+Qed.
+
+Lemma required_forallb fs kvs :
+  forallb (fun f => memN (iv_name f) (keys kvs) || negb (required f)) fs = true <->
+  (forall f, In f fs -> required f = true -> In (iv_name f) (keys kvs)).
+Proof.
+  rewrite forallb_forall. split; intros H f Hf.
+  - intro Hr. specialize (H f Hf). rewrite Hr in H. cbn in H. rewrite orb_false_r in H.
+    apply memN_In. exact H.
+  - destruct (required f) eqn:Er; [|apply orb_true_r].
+    apply orb_true_iff. left. apply memN_In. apply H; auto.
+Qed.
+
+Lemma lit_check_reflect rs v : forall t, lit_check rs v t = RValid <-> LitValid rs v t.
+Proof.
+  induction v as [ | b m | | | b | e | vs IHF | kvs IHF] using lit_ind'; intro t;
+    induction t as [n|t IHt|t IHt].
+  (* LNull *)
+  1-3: cbn; split; intro H; try constructor; try discriminate; inv H; congruence.
+  (* leaf literals: LInt LFloat LStr LBool LEnum *)
+  all: try (cbn; rewrite IHt; split;
+            [intro H; first [apply LV_nonnull | apply LV_item]; try discriminate; auto
+            | intro H; inv H; auto; try congruence;
+              match goal with Hx : forall vs, _ <> LList vs |- _ => exfalso; eapply Hx; reflexivity end ]).
+  all: try (cbn; destruct (lookup rs n) as [[s|?|?|?|ws|o fs]|] eqn:El;
+            try rewrite ofb_valid;
+            (split; [intro H; try discriminate;
+                     first [ eapply LV_scalar; [discriminate | exact El | exact H]
+                           | eapply LV_enum; [exact El | apply memN_In; exact H] ]
+                    | intro H; inv H; try congruence;
+                      try (rewrite El in *; match goal with Hs : Some _ = Some _ |- _ => inv Hs end; auto);
+                      try (apply memN_In; assumption) ])).
+  - (* LList at TList *)
+    cbn. clear IHt. rewrite (each_list_valid rs t vs).
+    + split; [apply LV_list | intro H; inv H; auto].
+      exfalso. match goal with Hx : forall vs0, _ <> LList vs0 |- _ => eapply Hx; reflexivity end.
+    + revert IHF. apply Forall_impl. intros x Hx. apply Hx.
+  - (* LObj at TNamed *)
+    cbn. destruct (lookup rs n) as [[s|?|?|?|ws|o fs]|] eqn:El.
+    + rewrite ofb_valid. split.
+      * intro H. eapply LV_scalar; [discriminate | exact El | exact H].
+      * intro H. inv H; rewrite El in *; congruence.
+    + split; [discriminate | intro H; inv H; rewrite El in *; congruence].
+    + split; [discriminate | intro H; inv H; rewrite El in *; congruence].
+    + split; [discriminate | intro H; inv H; rewrite El in *; congruence].
+    + split; [discriminate | intro H; inv H; rewrite El in *; congruence].
+    + rewrite !lmax_valid, !ofb_valid, required_forallb.
+      assert (Heach :
+        (fix each (l : list (N * lit)) : lres :=
+           match l with
+           | [] => RValid
+           | (k, x) :: l' =>
+               lmax (match find_inval k fs with
+                     | Some f => if is_input_tref rs (iv_type f) then lit_check rs x (iv_type f) else RSkipped
+                     | None => RInvalid
+                     end) (each l')
+           end) kvs = RValid <->
+        (forall k x, In (k, x) kvs ->
+           exists f, find_inval k fs = Some f /\ is_input_tref rs (iv_type f) = true
+                     /\ LitValid rs x (iv_type f))).
+      { clear El. induction kvs as [|[k x] kvs IHk].
+        - split; [intros _ k x [] | reflexivity].
+        - inv IHF. rewrite lmax_valid, (IHk H2). cbn in H1. split.
+          + intros [A B] k' x' [E|Hin]; [inv E|apply B; exact Hin].
+            destruct (find_inval k' fs) as [f|]; [|discriminate].
+            destruct (is_input_tref rs (iv_type f)) eqn:Ei; [|discriminate].
+            exists f. repeat split; auto. apply H1. exact A.
+          + intro H. split; [|intros k' x' Hin; apply H; right; exact Hin].
+            destruct (H k x (or_introl eq_refl)) as [f [E1 [E2 E3]]]. rewrite E1, E2. apply H1. exact E3. }
+      rewrite Heach. split.
+      * intros [A [B C]]. eapply LV_object; [exact El | exact A | exact B |].
+        intro Ho. subst o. cbn in C. apply (oneof_ok_spec fs kvs); [|exact C].
+        intros k x Hin. destruct (A k x Hin) as [f [E _]]. eauto.
+      * intro H. inv H; try (rewrite El in *; congruence). rewrite El in H2. inv H2.
+        split; [assumption|]. split; [assumption|]. destruct oneof; [|reflexivity]. cbn.
+        apply (oneof_ok_spec fs0 kvs); [|auto].
+        intros k x Hin. destruct (H3 k x Hin) as [f [E _]]. eauto.
+    + split; [discriminate | intro H; inv H; rewrite El in *; congruence].
+Qed.
+
+(* --- roots *)
+Lemma root_check_nil rs o : root_check rs o = [] <-> (forall n, In n (opt_list o) -> is_object rs n = true).
+Proof.
+  destruct o as [n|]; cbn.
+  - rewrite chk_nil. split; [intros H m [<-|[]]; exact H | intro H; apply H; left; reflexivity].
+  - split; [intros _ n [] | reflexivity].
+Qed.
+
+Lemma validate_roots_nil rs : validate_roots rs = [] <-> RootsOK rs.
+Proof.
+  unfold validate_roots, RootsOK. rewrite !app_nil_iff, !chk_nil, !root_check_nil, nodupN_NoDup.
+  unfold root_objects, roots_list. split.
+  - intros [Hq [H1 [H2 [H3 H4]]]].
+    assert (Hall : forall n, In n (opt_list (s_query rs) ++ opt_list (s_mutation rs) ++ opt_list (s_subscription rs))
+                             -> is_object rs n = true).
+    { intros n Hn. apply in_app_or in Hn. destruct Hn as [Hn|Hn]; [auto|].
+      apply in_app_or in Hn. destruct Hn; auto. }
+    split; [destruct (s_query rs); [eauto | discriminate]|]. split; [exact Hall|].
+    rewrite (filter_all _ _ Hall) in H4. exact H4.
+  - intros [[q Hq] [Hall Hnd]]. rewrite (filter_all _ _ Hall).
+    split; [rewrite Hq; reflexivity|].
+    repeat split; try exact Hnd; intros n Hn; apply Hall; apply in_or_app; auto;
+      right; apply in_or_app; auto.
+Qed.
+
+(* --- input value definitions *)
+Lemma default_check_nil rs t d :
+  is_input_tref rs t = true -> (default_check rs t d = [] <-> DefaultOK rs t d).
+Proof.
+  intro Hi. unfold default_check, DefaultOK. destruct d as [| |v]; try tauto.
+  rewrite Hi, <- lit_check_reflect. destruct (lit_check rs v t); split; intro H; congruence.
+Qed.
+
+Lemma validate_inval_nil rs iv : validate_inval rs iv = [] <-> InvalOK rs iv.
+Proof.
+  unfold validate_inval, InvalOK, name_ok. rewrite !app_nil_iff, !chk_nil, negb_true_iff, negb_true_iff.
+  rewrite andb_false_iff. split.
+  - intros [H1 [H2 [H3 H4]]]. split; [exact H1|]. split; [exact H2|]. split.
+    + intros [Ha Hb]. destruct H3; congruence.
+    + apply default_check_nil; assumption.
+  - intros [H1 [H2 [H3 H4]]]. split; [exact H1|]. split; [exact H2|]. split.
+    + destruct (required iv); [|left; reflexivity]. destruct (iv_dep iv); [|right; reflexivity].
+      exfalso. apply H3. auto.
+    + apply default_check_nil; assumption.
+Qed.
+
+Lemma validate_invals_nil rs l : flat_map (validate_inval rs) l = [] <-> Forall (InvalOK rs) l.
+Proof. rewrite flat_map_nil. apply Forall_iff. intro. apply validate_inval_nil. Qed.
+
+Lemma validate_directive_nil rs d : validate_directive rs d = [] <-> DirectiveOK rs d.
+Proof.
+  unfold validate_directive, DirectiveOK, name_ok.
+  rewrite !app_nil_iff, !chk_nil, negb_true_iff, validate_invals_nil. tauto.
+Qed.
+
+Lemma validate_field_nil rs f : validate_field rs f = [] <-> FieldOK rs f.
+Proof.
+  unfold validate_field, FieldOK, name_ok.
+  rewrite !app_nil_iff, !chk_nil, negb_true_iff, validate_invals_nil. tauto.
+Qed.
+
+(* --- interface implementation *)
+Lemma implements_arg_nil tf ia : implements_arg tf ia = [] <-> ArgOK tf ia.
+Proof.
+  unfold implements_arg, ArgOK. destruct (find_inval (iv_name ia) (f_args tf)) as [ta|].
+  - rewrite chk_nil, tref_eqb_eq. split; [intro H; eauto | intros [ta' [H1 H2]]; congruence].
+  - split; [discriminate | intros [ta [H _]]; discriminate].
+Qed.
+
+Lemma extra_arg_nil ifld ta : extra_arg ifld ta = [] <-> ExtraOK ifld ta.
+Proof.
+  unfold extra_arg, ExtraOK. rewrite chk_nil, negb_true_iff.
+  destruct (find_inval (iv_name ta) (f_args ifld)); split; intro H; auto; discriminate.
+Qed.
+
+Lemma implements_field_nil rs tfields ifld :
+  implements_field rs tfields ifld = [] <-> FieldImpl rs tfields ifld.
+Proof.
+  unfold implements_field, FieldImpl. destruct (find_field (f_name ifld) tfields) as [tf|].
+  - rewrite !app_nil_iff, !chk_nil, !flat_map_nil, negb_true_iff, andb_false_iff, negb_false_iff.
+    rewrite subtype_reflect.
+    rewrite (Forall_iff _ _ _ (implements_arg_nil tf)), (Forall_iff _ _ _ (extra_arg_nil ifld)).
+    split.
+    + intros [H1 [H2 [H3 H4]]]. exists tf. repeat split; auto.
+      intro Hd. destruct H4; congruence.
+    + intros [tf' [E [H1 [H2 [H3 H4]]]]]. inversion E; subst tf'. repeat split; auto.
+      destruct (f_dep tf); [right; auto | left; reflexivity].
+  - split; [discriminate | intros [tf [H _]]; discriminate].
+Qed.
+
+Lemma validate_ancestors_nil rs sifaces i :
+  validate_ancestors rs sifaces i = [] <-> incl (ifaces_of rs i) sifaces.
+Proof.
+  unfold validate_ancestors. rewrite flat_map_nil, Forall_forall. unfold incl.
+  split; intros H x Hx; specialize (H x Hx).
+  - apply chk_nil in H. apply memN_In. exact H.
+  - apply chk_nil. apply memN_In. exact H.
+Qed.
+
+Lemma validate_ifaces_nil rs self sf si : forall l seen,
+  validate_ifaces rs self sf si seen l = [] <->
+  NoDup l /\ (forall i, In i l -> ~ In i seen) /\ Forall (IfaceOK rs self sf si) l.
+Proof.
+  induction l as [|i l IH]; intro seen; cbn [validate_ifaces].
+  - split; [intros _; repeat split; [constructor | intros ? [] | constructor] | reflexivity].
+  - destruct (is_interface rs i) eqn:Ei; cbn [negb].
+    + rewrite app_nil_iff, chk_nil, negb_true_iff, N.eqb_neq.
+      destruct (memN i seen) eqn:Em.
+      * split; [intros [_ H]; discriminate|].
+        intros [_ [H _]]. exfalso. apply (H i (or_introl eq_refl)). apply memN_In. exact Em.
+      * rewrite !app_nil_iff, IH, validate_ancestors_nil.
+        unfold validate_implements. rewrite flat_map_nil.
+        rewrite (Forall_iff _ _ _ (implements_field_nil rs sf)).
+        assert (Hns : ~ In i seen) by (rewrite <- memN_In; congruence).
+        split.
+        -- intros [Hne [Hanc [Himp [Hnd [Hdisj Hall]]]]]. split; [|split].
+           ++ constructor; [|exact Hnd]. intro Hin. apply (Hdisj i Hin). left. reflexivity.
+           ++ intros j [<-|Hj]; [exact Hns|]. intro Hs. apply (Hdisj j Hj). right. exact Hs.
+           ++ constructor; [|exact Hall]. unfold IfaceOK. auto.
+        -- intros [Hnd [Hdisj Hall]]. inversion Hnd as [|? ? Hni Hnd']; subst.
+           inversion Hall as [|? ? Hi Hl]; subst.
+           destruct Hi as [_ [Ha [Hb Hc]]]. repeat split; auto.
+           intros j Hj [<-|Hs]; [contradiction|]. apply (Hdisj j (or_intror Hj) Hs).
+    + split; [discriminate|]. intros [_ [_ H]]. inversion H as [|? ? Hi _]; subst.
+      destruct Hi as [Hi _]. congruence.
+Qed.
+
+Lemma validate_members_nil rs : forall l seen,
+  validate_members rs seen l = [] <->
+  NoDup l /\ (forall m, In m l -> ~ In m seen) /\ Forall (fun m => is_object rs m = true) l.
+Proof.
+  induction l as [|m l IH]; intro seen; cbn [validate_members].
+  - split; [intros _; repeat split; [constructor | intros ? [] | constructor] | reflexivity].
+  - destruct (is_object rs m) eqn:Eo.
+    + destruct (memN m seen) eqn:Em.
+      * split; [discriminate|]. intros [_ [H _]]. exfalso.
+        apply (H m (or_introl eq_refl)). apply memN_In. exact Em.
+      * rewrite IH. assert (Hns : ~ In m seen) by (rewrite <- memN_In; congruence). split.
+        -- intros [Hnd [Hdisj Hall]]. split; [|split].
+           ++ constructor; [|exact Hnd]. intro Hin. apply (Hdisj m Hin). left. reflexivity.
+           ++ intros j [<-|Hj]; [exact Hns|]. intro Hs. apply (Hdisj j Hj). right. exact Hs.
+           ++ constructor; assumption.
+        -- intros [Hnd [Hdisj Hall]]. inversion Hnd as [|? ? Hni Hnd']; subst.
+           inversion Hall as [|? ? Hi Hl]; subst.
+           repeat split; auto. intros j Hj [<-|Hs]; [contradiction|]. apply (Hdisj j (or_intror Hj) Hs).
+    + split; [discriminate|]. intros [_ [_ H]]. inversion H; subst. congruence.
+Qed.
+
+Lemma validate_input_field_nil rs o iv :
+  validate_input_field rs o iv = [] <-> InvalOK rs iv /\ (o = true -> OneOfOK iv).
+Proof.
+  unfold validate_input_field, OneOfOK. rewrite app_nil_iff, validate_inval_nil. destruct o.
+  - rewrite app_nil_iff, !chk_nil, !negb_true_iff. split.
+    + intros [H1 [H2 H3]]. split; [exact H1|]. intros _. split; [exact H2|].
+      destruct (iv_default iv); cbn in H3; congruence.
+    + intros [H1 H2]. destruct (H2 eq_refl) as [H3 H4]. rewrite H4. cbn. auto.
+  - split; [intros [H _]; split; [exact H | discriminate] | intros [H _]; auto].
+Qed.
+
+Lemma Forall_and_iff {B} (P Q : B -> Prop) l : Forall (fun x => P x /\ Q x) l <-> Forall P l /\ Forall Q l.
+Proof.
+  rewrite !Forall_forall. split.
+  - intro H. split; intros x Hx; apply (H x Hx).
+  - intros [H1 H2] x Hx. split; auto.
+Qed.
+
+Lemma fields_ifaces_nil rs n fs ifs :
+  validate_fields rs fs ++ validate_ifaces rs n fs ifs [] ifs = [] <->
+  fs <> [] /\ Forall (FieldOK rs) fs /\ NoDup ifs /\ Forall (IfaceOK rs n fs ifs) ifs.
+Proof.
+  unfold validate_fields. rewrite !app_nil_iff, chk_nil, is_nil_false, flat_map_nil, validate_ifaces_nil.
+  rewrite (Forall_iff _ _ _ (validate_field_nil rs)).
+  split; [intros [[H1 H2] [H3 [_ H4]]]; auto | intros [H1 [H2 [H3 H4]]]; repeat split; auto].
+Qed.
+
+Lemma validate_type_nil rs nd : validate_type rs nd = [] <-> TypeOK rs nd.
+Proof.
+  destruct nd as [n d]. unfold validate_type, TypeOK, name_ok. cbn [fst snd].
+  rewrite app_nil_iff, chk_nil, negb_true_iff.
+  destruct d as [s|fs ifs|fs ifs|ms|vs|o fs].
+  - tauto.
+  - rewrite fields_ifaces_nil. tauto.
+  - rewrite fields_ifaces_nil. tauto.
+  - rewrite app_nil_iff, chk_nil, is_nil_false, validate_members_nil.
+    split; [intros [H0 [H1 [H2 [_ H3]]]]; auto | intros [H0 [H1 [H2 H3]]]; repeat split; auto].
+  - rewrite app_nil_iff, chk_nil, is_nil_false, flat_map_nil.
+    unfold name_ok. rewrite (Forall_iff _ (fun v => reserved v = false)); [tauto|].
+    intro v. rewrite chk_nil, negb_true_iff. tauto.
+  - rewrite app_nil_iff, chk_nil, is_nil_false, flat_map_nil.
+    rewrite (Forall_iff _ _ _ (validate_input_field_nil rs o)), Forall_and_iff.
+    split.
+    + intros [H0 [H1 [H2 H3]]]. repeat split; auto. intro Ho. revert H3. apply Forall_impl. auto.
+    + intros [H0 [H1 [H2 H3]]]. repeat split; auto. destruct o.
+      * specialize (H3 eq_refl). revert H3. apply Forall_impl. auto.
+      * apply Forall_forall. intros x _ Hd. discriminate.
+Qed.
+
+(* --- cycle reports *)
+Lemma map_nil_iff {B C} (f : B -> C) l : map f l = [] <-> l = [].
+Proof. destruct l; cbn; split; intro H; congruence. Qed.
+
+Lemma nn_reports_nil rs :
+  cycle_reports KNonNullCycle (nn_detect rs) = [] <-> (forall n, ~ reach (nn_succ rs) n n).
+Proof.
+  destruct (nn_detect_terminates rs) as [st H]. rewrite H. unfold cycle_reports. rewrite map_nil_iff.
+  split.
+  - apply nn_detect_complete. exact H.
+  - intro Hac. destruct (d_reports st) as [|c l] eqn:E; [reflexivity|]. exfalso.
+    unfold nn_detect in H.
+    destruct (dfs_all_sound_reach N N.eqb N.eqb_eq (nn_succ rs) _ _ st H) as [x Hx]; [congruence|].
+    exact (Hac x Hx).
+Qed.
+
+Lemma dv_reports_nil rs :
+  cycle_reports KDefaultCycle (dv_detect rs) = [] <-> (forall nd, ~ reach (dv_succ rs) nd nd).
+Proof.
+  destruct (dv_detect_terminates rs) as [st H]. rewrite H. unfold cycle_reports. rewrite map_nil_iff.
+  split.
+  - apply dv_detect_complete. exact H.
+  - intro Hac. destruct (d_reports st) as [|c l] eqn:E; [reflexivity|]. exfalso.
+    unfold dv_detect in H.
+    destruct (dfs_all_sound_reach fnode fnode_eqb fnode_eqb_spec (dv_succ rs) _ _ st H) as [x Hx]; [congruence|].
+    exact (Hac x Hx).
+Qed.
+
+Theorem validate_reflects rs : validate rs = [] <-> ValidSchema rs.
+Proof.
+  unfold validate. rewrite !app_nil_iff, validate_roots_nil, !flat_map_nil.
+  rewrite (Forall_iff _ _ _ (validate_directive_nil rs)), (Forall_iff _ _ _ (validate_type_nil rs)).
+  rewrite nn_reports_nil, dv_reports_nil.
+  split; [intros [H1 [H2 [H3 [H4 H5]]]]; constructor; assumption | intros [H1 H2 H3 H4 H5]; auto].
+Qed.
